@@ -112,6 +112,7 @@ from .iter_elim import (
     destructure_subst,
     index_access,
     is_access_path,
+    may_write,
     plan_for_zip,
 )
 
@@ -157,6 +158,7 @@ class _EnumerateElimInstance(DefaultTransformVisitor):
     def __init__(self, func: FuncDef, def_use: DefineUseAnalysis):
         super().__init__()
         self.func = func
+        self.def_use = def_use
         self.gensym = Gensym(reserved=def_use.names())
 
     def apply(self) -> FuncDef:
@@ -185,7 +187,7 @@ class _EnumerateElimInstance(DefaultTransformVisitor):
 
     def _visit_for(self, stmt: ForStmt, ctx: Ctx):
         split = _split_target(stmt.target, stmt.iterable)
-        if split is None:
+        if split is None or may_write(stmt.body, self.def_use):
             return super()._visit_for(stmt, ctx)
         # Recursively rewrite the body first, in case it contains nested
         # enumerate patterns.
@@ -240,6 +242,8 @@ class _EnumerateElimInstance(DefaultTransformVisitor):
         new_targets: list[Id | TupleBinding] = []
         new_iterables: list[Expr] = []
         subst: dict[NamedId, Expr] = {}
+        # the sources are read per element, after whatever ran for the earlier ones
+        frozen = may_write(e, self.def_use)
 
         for target, iterable in zip(e.targets, e.iterables):
             new_iter = self._visit_expr(iterable, ctx)
@@ -248,7 +252,7 @@ class _EnumerateElimInstance(DefaultTransformVisitor):
             # longer exists once that stage is rewritten.
             if subst:
                 new_iter = SubstNames(subst)._visit_expr(new_iter, ctx)
-            rewritten = self._rewrite_comp_stage(target, new_iter, subst)
+            rewritten = None if frozen else self._rewrite_comp_stage(target, new_iter, subst)
             if rewritten is None:
                 new_targets.append(self._visit_binding(target, ctx))
                 new_iterables.append(new_iter)
